@@ -1,6 +1,6 @@
 (* Extraction of the dsh output-path model.  ExtrOcamlBasic only. *)
 From Coq Require Import ExtrOcamlBasic.
-From PV Require Import Dsh.Output.
+From PV Require Import Dsh.Output Dsh.Dispatch.
 Extraction Language OCaml.
 Set Extraction KeepSingleton.
-Extraction "dsh_model.ml" run_stream extract_rc label.
+Extraction "dsh_model.ml" run_stream extract_rc label Dispatch.step Dispatch.init Dispatch.inflight.
